@@ -66,42 +66,44 @@ structure Obs where
 
 namespace Api
 
-/-- `__init_processing(document, schema)`; `accept` stands for
-    `DefinitionSchema(self, schema)`: `none` = `SchemaError` -/
-def initProcessing (accept : Val → Option Val) (s : VState) (doc : Val) (schema : Option Val) :
-    Except Exc VState := do
-  let s1 : VState := { s with errors := [], document := some doc,
-                              cfg := { s.cfg with isNormalized := false } }
-  let s2 ← match schema with
-    | some sch =>
-      match accept sch with
-      | some a => pure { s1 with schema := some a }
-      | none => .error (.py "SchemaError" "DefinitionSchema")
+/-- first half of `__init_processing`: the per-call state is reset and the document stored -/
+def reset (s : VState) (doc : Val) : VState :=
+  { s with errors := [], document := some doc, cfg := { s.cfg with isNormalized := false } }
+
+/-- second half: the schema argument.  `accept` stands for `DefinitionSchema(self, schema)`:
+    `none` = `SchemaError` -/
+def resolveSchemaArg (accept : Val → Option Val) (s1 : VState) (schema : Option Val) : Except Exc VState :=
+  match schema with
+  | some sch =>
+    match accept sch with
+    | some a => .ok { s1 with schema := some a }
+    | none => .error (.py "SchemaError" "DefinitionSchema")
+  | none =>
+    match s1.schema with
+    | some _ => .ok s1
     | none =>
-      match s1.schema with
-      | some _ => pure s1
-      | none =>
-        if s1.cfg.allowUnknown.isMapping then pure { s1 with schema := some (.dict []) }
-        else .error (.py "SchemaError" "__init_processing")
+      if s1.cfg.allowUnknown.isMapping then .ok { s1 with schema := some (.dict []) }
+      else .error (.py "SchemaError" "__init_processing")
+
+/-- last: `None` and non-mappings are rejected -/
+def checkDoc (doc : Val) (s2 : VState) : Except Exc VState :=
   match doc with
-  | .none => .error (.py "DocumentError" "__init_processing")
-  | .dict _ => pure s2
+  | .dict _ => .ok s2
   | _ => .error (.py "DocumentError" "__init_processing")
+
+/-- `__init_processing(document, schema)` -/
+def initProcessing (accept : Val → Option Val) (s : VState) (doc : Val) (schema : Option Val) :
+    Except Exc VState :=
+  match resolveSchemaArg accept (reset s doc) schema with
+  | .ok s2 => checkDoc doc s2
+  | .error e => .error e
 
 /-- state after an exception escaped from `__init_processing` (what the code
     had already assigned before raising) -/
 def afterInitError (accept : Val → Option Val) (s : VState) (doc : Val) (schema : Option Val) : VState :=
-  let s1 : VState := { s with errors := [], document := some doc,
-                              cfg := { s.cfg with isNormalized := false } }
-  match schema with
-  | some sch =>
-    match accept sch with
-    | some a => { s1 with schema := some a }
-    | none => s1
-  | none =>
-    match s1.schema with
-    | some _ => s1
-    | none => if s1.cfg.allowUnknown.isMapping then { s1 with schema := some (.dict []) } else s1
+  match resolveSchemaArg accept (reset s doc) schema with
+  | .ok s2 => s2
+  | .error _ => reset s doc
 
 def docKvs : Val → List (Key × Val)
   | .dict kvs => kvs
